@@ -36,6 +36,8 @@ def generate(g, tier):
         dollar = g.chance(0.25)
         pool = EXPRS if (dollar or cmd in ('DELAY', 'DEFAULT_DELAY', 'DEFAULTDELAY', 'WHITESPACE')) else TEXTS
         args = [r.choice(pool) for _ in range(r.randint(1, 4))]
+        if cmd == 'VAR' and g.chance(0.5): args = ['k 1', 'j k+1', 'k j*3']      # later arguments see what earlier ones did
+        if cmd == 'RUN' and g.chance(0.5): args = ['z', 'f 1,2', 'z']
         if cmd in ('DEFAULT_DELAY', 'DEFAULTDELAY') and g.chance(0.05):
             args = ['5', '$DEFAULT_DELAY+1']          # the known evaluation-order finding
         if g.chance(0.25):      # trailing blanks are part of the line in every spelling alike
